@@ -24,7 +24,7 @@ RULE = ("a case places secret fields (aes / xor / best) at the root, in sub-sche
         "opens during dumps/loads contains no key file other than the expected ones, (4) a fresh configuration (new "
         "objects; 1 in 40 in a new process) loading the document gets every plaintext back; non-trivial = >= 2 "
         "non-empty secrets at >= 2 depths; distinct = distinct case content")
-REQUIRED = ("layout:transplanted-subconfig", "layout:names-inherited-file", "documents_scanned_for_tokens", "ciphertexts_decrypted_by_oracle", "keyfile_open_sets_checked",
+REQUIRED = ("layout:only-keyed-subtrees", "layout:transplanted-subconfig", "layout:names-inherited-file", "documents_scanned_for_tokens", "ciphertexts_decrypted_by_oracle", "keyfile_open_sets_checked",
             "reloads_compared", "layout:root-ctor", "layout:root-attr", "layout:sub", "layout:ctype", "layout:default",
             "secrets_in_list_items", "rekey_after_first_use", "new_process_reloads")
 ASSUMPTIONS = ["only files under the sandbox root are considered; HOME is redirected so the default key file is sandboxed",
@@ -48,12 +48,17 @@ def generate(rng, ctx):
         "T_same": rng.random() < 0.25,
         "a_same": rng.random() < 0.15,
     }
+    # the root names nothing and holds no secret of its own: the default key file must never be touched
+    layout["only_keyed_subtrees"] = rng.random() < 0.15
+    if layout["only_keyed_subtrees"]:
+        layout.update({"root": None, "a": True, "ab": rng.random() < 0.5, "T": True, "TI": True, "T_same": False, "a_same": False,
+                       "rekey": False})
     if layout["T_same"]:
         layout["T"] = True
     if layout["a_same"]:
         layout["a"] = True
     # a sub-configuration object that already lives in another tree (with another key file) is assigned into this one
-    layout["transplant_a"] = (not layout["a"]) and (not layout["ab"]) and rng.random() < 0.25
+    layout["transplant_a"] = (not layout["a"]) and (not layout["ab"]) and rng.random() < 0.25 and not layout.get("only_keyed_subtrees")
     methods = {p: rng.choice(["aes", "xor", "best"]) for p in POSITIONS}
 
     def secret(empty_ok=True):
@@ -71,6 +76,8 @@ def generate(rng, ctx):
         "items": [{"s": secret(), "sub": {"s": secret()}, "n": i} for i in range(rng.choice([0, 1, 2, 3]))],
         "titems": [{"s": secret(), "n": i} for i in range(rng.choice([0, 1, 2]))],
     }
+    if layout.get("only_keyed_subtrees"):
+        values.update({"s": "", "lst": [], "dsec": {}, "items": []})
     fmts = rng.sample(trees.FORMATS, rng.choice([1, 2, 3]))
     return {"layout": layout, "methods": methods, "values": values, "fmts": fmts, "newproc": rng.random() < 0.025,
             "r": rng.getrandbits(20)}
@@ -226,6 +233,8 @@ def run(case, ctx, res):
         res.count("layout:ctype")
     if lay.get("T_same") or lay.get("a_same"):
         res.count("layout:names-inherited-file")
+    if lay.get("only_keyed_subtrees"):
+        res.count("layout:only-keyed-subtrees")
     if case["values"]["items"] or case["values"]["titems"] or case["values"]["lst"]:
         res.count("secrets_in_list_items")
     positions = secret_positions(case["values"])
